@@ -73,6 +73,10 @@ def run(ctx):
     R1 = rep.rule('C13.R1', 'every entry pointer cast is a transparent identity, an unsizing, a Box projection, or a downcast dominated by is::<T>()', floor=6)
     R2 = rep.rule('C13.R2', 'byte swap only between equal types: real assert on type ids dominates it; length = size_of_val', floor=2)
     R3 = rep.rule('C13.R3', 'ownership-escaping primitives are a closed table with pairing obligations', floor=2)
+    S4 = rep.rule('C07.R1', 'every access to the stored value is lock-disciplined (shared with C07)', floor=5)
+    S5 = rep.rule('C07.R3', 'a reload replaces the value inside the write-guard region (shared with C07)', floor=5)
+    S6 = rep.rule('C07.R4', 'one writer (shared with C07)', floor=1)
+    S7 = rep.rule('C10.R2', 'only entries that have a lock are written (shared with C10)', floor=1)
     S1 = rep.rule('C01.R1', 'no stored value is dropped (replaced / removed) while only a shared borrow of the cache is held (shared with C01)', floor=8)
     S3 = rep.rule('C01.R3', 'destroying map operations need &mut self (shared with C01)', floor=4)
     from c01 import r1 as no_destroy_under_shared_borrow
@@ -86,6 +90,15 @@ def run(ctx):
         if hr:
             r2(R2, cfg, F)
             R2.finish_cfg(cfg)
+            # "replaced by a reload ... never while a read guard can still reach it": the replacement happens under the entry's
+            # write lock, and only entries that have a lock are ever written
+            from c07 import r1 as value_access_discipline, r3 as writer_region
+            from c10 import r2 as write_needs_dynamic
+            value_access_discipline(S4, cfg, F, True)
+            writer_region(S5, S6, cfg, F)
+            write_needs_dynamic(S7, cfg, F)
+            for r in (S4, S5, S6, S7):
+                r.finish_cfg(cfg)
         r3(R3, cfg, F, hr)
         R3.finish_cfg(cfg)
 
